@@ -982,6 +982,13 @@ package server
 // recovery flag; members, subscriptions, heaps, assignments and the epoch are what the replayed operations left - the
 // same as on a server that applied those operations live (determinism clause: "servers that applied the same sequence
 // of group operations hand out identical assignments for the same group epoch")
+// a coordinator change carries the group epoch like every group operation; an accepted one is APPLIED - also to a group
+// that is being rebuilt by a replay (recovery mode only defers the liveness timers): a server that replays the change must
+// end with the coordinator and epoch of the servers that applied it live (C06)
+//@ func (*consumerGroup).SetCoordinator serves C06, C12
+//@   assumes c != nil
+//@   ensures [stale-refused] epoch < old(c.epoch) ==> result != nil && c.epoch == old(c.epoch) && c.coordinator == old(c.coordinator)
+//@   ensures [C06:an-accepted-change-is-applied-replayed-or-not] epoch >= old(c.epoch) ==> result == nil && c.coordinator == coordinator && c.epoch == epoch
 //@ func (*consumerGroup).StartRecovered serves C12
 //@   assumes c != nil
 //@   ensures [recovery-ended] !c.recovered
